@@ -104,6 +104,31 @@ def analyse_all(repo):
     return eff, analyses, scope
 
 
+def surface_dirty(repo, keys):
+    """typestate verdicts for some surface functions (shared with properties whose strategies rely on a scoped change):
+    -> [(key, cell, exit kind, has_restore, message, path, lineno)], number of CFG nodes analysed"""
+    eff, analyses, scope = analyse_all(repo)
+    out, nodes = [], 0
+    for key in keys:
+        cells = SURFACE[key][0]
+        f = repo.fn(key)
+        an = analyses.get(f) or FnAnalysis(f, eff, scope)
+        nodes += len(an.cfg.nodes)
+        seen = set()
+        for cell, exit_kind, path in an.dirty_exits:
+            if cell not in cells or (cell, exit_kind) in seen:
+                continue
+            seen.add((cell, exit_kind))
+            has_restore = any(r[0] == cell for r in an.restores) or any(cell in cs for _, _, cs in an.with_scopes)
+            if has_restore:
+                msg = "cell '%s' may be left modified at the %s exit; path: %s" % (cell, exit_kind, " -> ".join(path[-12:]))
+            else:
+                writes = [w[1] for w in an.writes if w[0] == cell]
+                msg = "cell '%s' is written (%s) and never written back from a snapshot of that cell taken before the write" % (cell, "; ".join(writes[:3]))
+            out.append((key, cell, exit_kind, has_restore, msg, path, f.lineno))
+    return out, nodes
+
+
 def run(repo, chk, tier):
     chk.rule("R0", "a surface function that writes a state cell writes it back (no orphan write / snapshot)")
     chk.rule(
